@@ -227,6 +227,9 @@ def run(ctx: Ctx) -> None:
     for key in (f"{I}::McCnnInterpolation.interpolated_disparity", f"{I}::SgmInterpolation.interpolated_disparity"):
         check_function_effects(ctx, "C14.EFFECTS", key)
     ctx.floor("C14.DIRECTIONS(tables)", rule_directions(ctx), 3)
+    from ..rules_par import rule_ieee
+
+    ctx.floor("C14.IEEE", rule_ieee(ctx, "C14.IEEE", files=(I, "pandora/img_tools.py")), 4)
     n = check_flag_stores(ctx, "C14.FLAGS", [I])
     ctx.floor("C14.FLAGS", n, 10)
     rule_search_bounds(ctx, IMG, "find_valid_neighbors")
@@ -282,6 +285,7 @@ SPEC = PropSpec(
 )
 
 MUTANTS = [
+    {"id": "sgm-occlusion-kernel-fastmath", "file": I, "old": "    @staticmethod\n    @njit()\n    def interpolate_occlusion_sgm(", "new": "    @staticmethod\n    @njit(fastmath=True)\n    def interpolate_occlusion_sgm("},
     {"id": "direction-table-sign-flipped", "file": I, "old": "                [1.0, -0.5],\n", "new": "                [1.0, 0.5],\n", "count": 1},
     {"id": "hoisted-flag-exchange-loses-found-factor", "file": I, "old": "                        out_val[col, row] -= cst.PANDORA_MSK_PIXEL_OCCLUSION * msk[arg_valid]\n                        out_val[col, row] |= cst.PANDORA_MSK_PIXEL_FILLED_OCCLUSION * msk[arg_valid]\n                        out_disp[col, row] = disp[col, row + arg_valid]\n", "new": "                        out_val[col, row] -= cst.PANDORA_MSK_PIXEL_OCCLUSION\n                        out_val[col, row] |= cst.PANDORA_MSK_PIXEL_FILLED_OCCLUSION\n                        out_disp[col, row] = disp[col, row + arg_valid]\n"},
     {"id": "eq-direction-table-reordered", "kind": "equiv", "edits": [(I, "                [0.0, 1.0],\n                [-0.5, 1.0],\n", "                [-0.5, 1.0],\n                [0.0, 1.0],\n", 1)]},
